@@ -130,5 +130,52 @@ void run_rilist(F make) {
         if (pos < 0) std::printf(" | ok\n"); else std::printf(" | FAIL pos=%ld\n", pos);
     });
 }
+
+// evaluation-requiring right-hand sides that read the map they are assigned to: the same statement on an owning tensor
+// holding the same values and a plain-loop reference.  N x N, misaligned buffer.
+template<typename T, size_t N>
+void run_rstaged(unsigned seed) {
+    guarded([&]{
+        std::printf("rstaged cfg=%s T=%s n=%zu seed=%u", CFGNAME, tn<T>::n(), N, seed); std::fflush(stdout);
+        const char* what = nullptr; long pos = -1;
+        for (int stmt = 0; stmt < 7 && !what; ++stmt) {
+            alignas(64) static unsigned char store[64 * 4 + 1024 * sizeof(T)];
+            std::memset(store, 0, sizeof store);
+            T* buf = reinterpret_cast<T*>(store + 64 + sizeof(T) * (1 + (seed + stmt) % 7));
+            uint32_t s = seed * 2654435761u + (uint32_t)stmt;
+            Tensor<T,N,N> B, O; std::vector<T> x(N * N), b(N * N), want(N * N);
+            for (size_t p = 0; p < N * N; ++p) { x[p] = buf[p] = O.data()[p] = (T)((int)(rnd(s) % 7) - 3); b[p] = B.data()[p] = (T)((int)(rnd(s) % 5) - 2); }
+            TensorMap<T,N,N> m(buf);
+            auto X = [&](size_t i, size_t j) { return x[i * N + j]; };
+            auto Bv = [&](size_t i, size_t j) { return b[i * N + j]; };
+            const char* name = "";
+            for (size_t i = 0; i < N; ++i) for (size_t j = 0; j < N; ++j) {
+                T mm = 0; for (size_t k = 0; k < N; ++k) mm += Bv(i, k) * X(k, j);
+                T w;
+                switch (stmt) {
+                    case 0: w = Bv(i, j) + X(j, i); break;
+                    case 1: w = Bv(i, j) - X(j, i); break;
+                    case 2: w = X(i, j) + X(j, i); break;
+                    case 3: w = X(i, j) + X(j, i); break;
+                    case 4: w = X(j, i); break;
+                    case 5: w = mm; break;
+                    default: w = Bv(i, j) + mm; break;
+                }
+                want[i * N + j] = w;
+            }
+            switch (stmt) {
+                case 0: name = "m=B+trans(m)"; m = B + trans(m); O = B + trans(O); break;
+                case 1: name = "m=B-trans(m)"; m = B - trans(m); O = B - trans(O); break;
+                case 2: name = "m=m+trans(m)"; m = m + trans(m); O = O + trans(O); break;
+                case 3: name = "m+=trans(m)"; m += trans(m); O += trans(O); break;
+                case 4: name = "m=trans(m)"; m = trans(m); O = trans(O); break;
+                case 5: name = "m=B%m"; m = B % m; O = B % O; break;
+                default: name = "m=B+B%m"; m = B + B % m; O = B + B % O; break;
+            }
+            for (size_t p = 0; p < N * N && !what; ++p) if (buf[p] != want[p] || O.data()[p] != want[p]) { what = name; pos = (long)p; if (O.data()[p] == want[p]) name = name; }
+        }
+        if (!what) std::printf(" | ok\n"); else std::printf(" | FAIL stmt=%s pos=%ld\n", what, pos);
+    });
+}
 } // namespace c20r
-using c20r::run_rmap; using c20r::run_rctor; using c20r::run_rilist;
+using c20r::run_rmap; using c20r::run_rctor; using c20r::run_rilist; using c20r::run_rstaged;
